@@ -120,18 +120,23 @@ class UpdateAttrMethod(AttrMethodDescriptor):
     ):
         if not _if or (_new_value is UNCHANGED and not attrs):
             return self
-        return WithAttrMethod.with_attr(
-            attr_spec,
-            self,
-            _new_value=mutate_value(
-                old_value=Proxy(lambda: getattr(self, attr_spec.name, MISSING)),
-                new_value=_new_value,
-                constructor=attr_spec.constructor,
-                expected_type=attr_spec.type,
-                attrs=attrs,
-            ),
-            _inplace=_inplace,
-        )
+        if not _inplace:
+            # Work on the copy from the outset: the old value is then the
+            # copy's own, and nothing of this instance ends up in the result.
+            self = copy.deepcopy(self)
+        with _unfrozen(self, enabled=not _inplace):
+            return WithAttrMethod.with_attr(
+                attr_spec,
+                self,
+                _new_value=mutate_value(
+                    old_value=Proxy(lambda: getattr(self, attr_spec.name, MISSING)),
+                    new_value=_new_value,
+                    constructor=attr_spec.constructor,
+                    expected_type=attr_spec.type,
+                    attrs=attrs,
+                ),
+                _inplace=True,
+            )
 
     def build_method(self) -> Callable:
         self.attr_spec.name = self.attr_spec.name
@@ -202,18 +207,24 @@ class TransformAttrMethod(AttrMethodDescriptor):
     ):
         if not _if:
             return self
-        return WithAttrMethod.with_attr(
-            attr_spec,
-            self,
-            _new_value=mutate_value(
-                old_value=Proxy(lambda: getattr(self, attr_spec.name, MISSING)),
-                transform=_transform,
-                constructor=attr_spec.constructor,
-                expected_type=attr_spec.type,
-                attr_transforms=attr_transforms,
-            ),
-            _inplace=_inplace,
-        )
+        if not _inplace:
+            # Work on the copy from the outset: the transforms then see the
+            # copy's own value, and nothing of this instance (nor anything a
+            # transform builds from it) ends up in the result.
+            self = copy.deepcopy(self)
+        with _unfrozen(self, enabled=not _inplace):
+            return WithAttrMethod.with_attr(
+                attr_spec,
+                self,
+                _new_value=mutate_value(
+                    old_value=Proxy(lambda: getattr(self, attr_spec.name, MISSING)),
+                    transform=_transform,
+                    constructor=attr_spec.constructor,
+                    expected_type=attr_spec.type,
+                    attr_transforms=attr_transforms,
+                ),
+                _inplace=True,
+            )
 
     def build_method(self) -> Callable:
         self.attr_spec.name = self.attr_spec.name
